@@ -96,7 +96,15 @@ pub fn fold(req: &J) -> J {
         let f1 = v.constant_fold();
         let f2 = f1.constant_fold();
         let n1 = tree::count_nodes(&f1);
+        // the same tree as the type checker sees it (every node annotated with a type variable), folded there
+        let mut tstate = TypeCheckerState::empty();
+        let tvar = tstate.register(v.clone());
+        let tc_folded = tstate.value(tvar).map(|tcv| tree::ser(&tcv.constant_fold(), false));
+        let rt_folded = tree::ser(&f1, false);
+        let tc_same = tc_folded.as_ref().map_or(true, |t| *t == rt_folded);
         out.push(json!({
+            "tc_same": tc_same,
+            "tc_folded": if tc_same { J::Null } else { tc_folded.unwrap_or(J::Null) },
             "folded": tree::ser(&f1, false),
             "idempotent": *f1 == *f2,
             "twice": if *f1 == *f2 { J::Null } else { tree::ser(&f2, false) },
